@@ -420,6 +420,7 @@ func (w *World) decoderLayer() map[*ssa.Function]map[*ssa.Function]bool {
 // ---- C02 ----
 
 func rulesC02(w *World, r *Report) {
+	w.ruleSizesNotNarrowed(r, "C02.R10 sizes written on the wire are not narrowed below 32 bits", 3)
 	{
 		reach := w.reachPkg(w.encoderRoots()...)
 		w.ruleCountedTraversals(r, "C02.R9 the encoder writes every member of a container", 3, func(fn *ssa.Function) bool { return reach[fn] || reach[rootFn(fn)] })
